@@ -318,6 +318,21 @@ func c09Eval(c *fw.Ctx, k c09Case) (sig, desc string, nontrivial bool) {
 				return "C09/glob/base-spelling", fmt.Sprintf("%s: with -src-base %q -dest-base %q the run gives %s %s and another listing than with the clean spelling (%s)", ctx, sp[0], sp[1], c2, e2, cls), nontrivial
 			}
 		}
+		// the same files selected by patterns whose wildcard sits in the DIRECTORY part
+		for _, pat := range []string{"?/*.wsp"} {
+			c2, t2, e2 := run(sdir, pat, ddir, "")
+			if c2 != cls || c12Norm(t2) != c12Norm(text) {
+				return "C09/glob/directory-wildcard", fmt.Sprintf("%s: pattern %q gives %s %s and another listing than m/*.wsp (%s)", ctx, pat, c2, e2, cls), nontrivial
+			}
+		}
+		// ... and ONLY there: the pattern selects the one differing file
+		for _, pat := range []string{"*/b.wsp", "[lmn]/b.wsp"} {
+			c2, t2, e2 := run(sdir, pat, ddir, "")
+			g2, _, _, bad2 := parseDiffLines(t2)
+			if c2 != wantCls || bad2 != "" || len(g2) != len(want) {
+				return "C09/glob/directory-wildcard-only", fmt.Sprintf("%s: pattern %q gives %s %s with %d slots listed; the file it selects differs in %d slots", ctx, pat, c2, e2, len(g2), len(want)), nontrivial
+			}
+		}
 		got, _, _, bad := parseDiffLines(text)
 		if bad != "" || len(got) != len(want) {
 			return "C09/glob/listing", fmt.Sprintf("%s: %d slots listed over the three files, want %d %s", ctx, len(got), len(want), bad), nontrivial
